@@ -171,6 +171,26 @@ def execute(case):
         if canon.col_cells(vec) != pre:
             res.violate(f"{helper}:vector:mutated-input", ctx)
         judge("vector", g, canon.canon_obj(got, string_na=string_na), expected[g])
+    if kind == "datetime_ns" and helper in ("min", "max", "first", "last", "nth"):
+        # nanosecond datetimes that differ only below the microsecond: the statistic must still be one of the ELEMENTS
+        # (the vector form returns the exact nanosecond count when a datetime.datetime cannot hold the value)
+        k0 = len(rows) % 7 * 10
+        base = np.datetime64("2024-02-29T06:30:00.000001000", "ns")
+        arr = np.array([base + np.timedelta64(k0 + k, "ns") for k in (5, 2, 9)])
+        ints = arr.astype("int64").tolist()
+        idx = kw.get("index")
+        exp = {"min": min(ints), "max": max(ints), "first": ints[0], "last": ints[-1],
+               "nth": ints[idx] if idx is not None and -3 <= idx < 3 else None}[helper]
+        if exp is not None:
+            res.cls("sub-microsecond-probe")
+            try:
+                got = f(di.Vector(arr), *args, **kws)
+                gv = int(got) if isinstance(got, (int, np.integer)) and not isinstance(got, np.timedelta64) else int(np.datetime64(got).astype("datetime64[ns]").astype("int64"))
+                if gv != exp:
+                    res.violate(f"{helper}:vector:sub-microsecond-value-changed", f"di.{helper}(Vector of datetime64[ns] {arr.tolist()}, {kw}) gave {got!r} = {gv} ns, expected the element {exp} ns")
+            except Exception as e:
+                res.violate(f"{helper}:vector:raised:{exc_name(e)}:datetime_ns:sub-microsecond", f"di.{helper}(Vector {arr!r}, {kw}) raised {e!r}")
+            res.count("results-compared")
     if case.get("vector_empty"):
         res.cls("vector-empty")
         vec = di.Vector(gen.np_column(kind, []))
